@@ -1077,7 +1077,8 @@ func (t *objectType) createAttributesInfo() *attributesInfo {
 		for _, key := range t.serialization {
 			av, _ := atMap.Get(key)
 			attr := av.(px.Attribute)
-			if !attr.HasValue() {
+			// A given_or_derived attribute is optional also when it has no value (its type accepts undef)
+			if !attr.HasValue() && attr.Kind() != givenOrDerived {
 				nonOptSize++
 			}
 			attrs = append(attrs, attr)
